@@ -57,6 +57,39 @@ pub proof fn lemma_filter_push<A>(s: Seq<A>, x: A, p: spec_fn(A) -> bool)
     reveal(Seq::filter);
     assert(s.push(x).drop_last() == s);
 }
+/// appending elements that all fail p does not change the filter
+pub proof fn lemma_filter_none_append<A>(s: Seq<A>, e: Seq<A>, p: spec_fn(A) -> bool)
+    requires forall|k: int| 0 <= k < e.len() ==> !p(#[trigger] e[k])
+    ensures (s + e).filter(p) == s.filter(p)
+    decreases e.len()
+{
+    if e.len() == 0 {
+        assert(s + e == s);
+    } else {
+        lemma_filter_none_append(s, e.drop_last(), p);
+        assert(s + e == (s + e.drop_last()).push(e.last()));
+        lemma_filter_push(s + e.drop_last(), e.last(), p);
+    }
+}
+/// filtering by p first does not change a filter by a stronger q
+pub proof fn lemma_filter_filter<A>(s: Seq<A>, p: spec_fn(A) -> bool, q: spec_fn(A) -> bool)
+    requires forall|x: A| #[trigger] q(x) ==> p(x)
+    ensures s.filter(p).filter(q) == s.filter(q)
+    decreases s.len()
+{
+    if s.len() == 0 {
+        lemma_filter_empty(p);
+        assert(s == Seq::<A>::empty());
+    } else {
+        lemma_filter_filter(s.drop_last(), p, q);
+        assert(s == s.drop_last().push(s.last()));
+        lemma_filter_push(s.drop_last(), s.last(), p);
+        lemma_filter_push(s.drop_last(), s.last(), q);
+        if p(s.last()) {
+            lemma_filter_push(s.drop_last().filter(p), s.last(), q);
+        }
+    }
+}
 pub proof fn lemma_filter_empty<A>(p: spec_fn(A) -> bool)
     ensures Seq::<A>::empty().filter(p) == Seq::<A>::empty()
 {
@@ -67,4 +100,17 @@ pub proof fn lemma_filter_empty<A>(p: spec_fn(A) -> bool)
 pub fn vec_extend_ref<T: Copy>(v: &mut Vec<T>, w: &Vec<T>)
     ensures final(v)@ == old(v)@ + w@
 { v.extend(w) }
+/// rule R6j: an empty vector with the element type of `v` (verified; only fixes the type for inference)
+pub fn vec_empty_like<T>(v: &Vec<T>) -> (r: Vec<T>)
+    ensures r@ == Seq::<T>::empty()
+{ Vec::new() }
+/// rule R22: `a.into_iter().chain(b.into_iter()).collect()` (std contract, assumed): a's elements, then b's
+#[verifier::external_body]
+pub fn vec_concat<T>(a: Vec<T>, b: Vec<T>) -> (r: Vec<T>)
+    ensures r@ == a@ + b@
+{ a.into_iter().chain(b.into_iter()).collect() }
+/// rule R22b: `vec![x.clone()]` for a Copy element (verified)
+pub fn vec_one<T: Copy>(x: T) -> (r: Vec<T>)
+    ensures r@ == seq![x]
+{ let mut v = Vec::new(); v.push(x); v }
 } // mod seqs
